@@ -37,6 +37,15 @@ def make_histories(maxver, variant=0, groups=True, a2_variant=None):
 # ---------------------------------------------------------------------------
 # oracles: what a fresh installation of version v looks like
 
+class OracleInstallFailed(Exception):
+    """A plain fresh install of one version of a history failed."""
+
+    def __init__(self, app, version, error):
+        Exception.__init__(self, 'fresh install of %s at version %d failed: %s'
+                           % (app, version, (error or {}).get('msg') if isinstance(error, dict) else error))
+        self.app, self.version, self.error = app, version, error
+
+
 class Oracles(object):
     """Schema and stored app signature of a fresh install of each version."""
 
@@ -60,7 +69,7 @@ class Oracles(object):
                 h.deploy(p, v)
                 r = p.run({'action': 'evolve_api'})
                 if r['outcome'] != 'ok':
-                    raise RuntimeError('oracle install failed: %r' % (r.get('error') or r,))
+                    raise OracleInstallFailed(h.app, v, r.get('error') or {'msg': repr(r)[:500]})
                 db = r['post']['default']['db']
                 sig = (r['signature']['default'] or {}).get('apps', {}).get(h.app)
                 return job, schema_of(db), sig, db
